@@ -225,7 +225,7 @@ def reader_fns(tok):
                       # the NEXT n bytes of the request, in order, at offsets 0..n of buf; the rest of buf as it was
                       'r is Ok && %s > 0 ==> final(buf)@ =~= bytes_at(%s.subrange(0, %s as int)) + old(buf)@.skip(%s as int) // [C04.reader.read.delivered_in_order]' % (N, OLDW, N, N),
                       '%s // [C17.read.unmarked]' % UNMARKED],
-                  body_resub=[(r'unsafe\s*\{(?:\s*//[^\n]*\n)*\s*copy_nonoverlapping\((\w+)\.as_ptr\(\)\s*as\s*\*const\s+u8,\s*(\w+)\.as_mut_ptr\(\),\s*(\w+)\);\s*\}',
+                  body_resub=[(r'unsafe\s*\{(?:\s*//[^\n]*\n)*\s*copy_nonoverlapping\((\w+)\.as_ptr\(\)\s*as\s*\*const\s+u8,\s*(\w+)\.as_mut_ptr\(\),\s*([^;{}]+?)\);\s*\}',
                                r'vx_copy_from_guest(\1, \2, \3, Tracked(&mut gr));',
                                'raw copy out of the request buffer -> model call (n bytes at src -> offsets 0..n of dst; in-bounds on both sides as preconditions)')],
                   splices=[('^', 'after', 'broadcast use axiom_mut_slice_len, axiom_mut_slice_max;'),
@@ -247,8 +247,6 @@ def reader_fns(tok):
                     bufs@.take(bufs@.len() as int) =~= bufs@,
             {
                 proof { lemma_fcells_take_next(bufs@, it.index@); }'''),
-                           # the closure-local log at the end: every address of the offered prefix was read exactly once, in order, and nothing else
-                           ('Ok(total)', 'before', 'proof { assert(gr.read =~= fcells(bufs@).subrange(0, total as int)); } // [C04.reader.read.each_address_once_in_order]'),
                            ]))
     SR = "impl<S: BitmapSlice> Reader<'_, S>"
     SZ = 'T::ssize()'
